@@ -239,6 +239,24 @@ class Ctx:
         (EVID / (self.pid + ".json")).write_text(json.dumps(ev, indent=1, default=str))
 
 
+def crash_report(pid, rc, tier):
+    """the check's interpreter died (signal / abort) while exercising the library: no result was returned to the caller, which
+    no property allows (and C05 forbids in so many words).  Called by the ./check wrapper; writes a replay file and evidence."""
+    REPLAYS.mkdir(parents=True, exist_ok=True)
+    path = REPLAYS / ("%s-interpreter-crash-0.json" % pid)
+    what = "the Python interpreter running the check died with exit status %s while calling hydrodiy (memory corruption, abort or signal in a compiled kernel)" % rc
+    path.write_text(json.dumps({"property": pid, "site": "interpreter-crash", "what": what, "case": {"exit_status": rc}}, indent=1))
+    print("VIOLATION property=%s replay=%s" % (pid, path))
+    print("  site=interpreter-crash: %s" % what)
+    EVID.mkdir(parents=True, exist_ok=True)
+    ev = {"property_id": pid, "tier": tier, "seed": int(os.environ.get("VERIF_SEED", "20261003")), "level": "other",
+          "coverage": {"states": 0, "transitions": 0, "traces_validated_against_impl": 0, "evaluations": 0, "distinct_nontrivial": 0,
+                       "rule": "check aborted: interpreter crash", "samples": [{"exit_status": rc}], "parts": {}, "explanation": what},
+          "assumptions": [], "wall_s": 0.0, "violations": 1, "known_findings_hit": []}
+    (EVID / (pid + ".json")).write_text(json.dumps(ev, indent=1))
+    return 1
+
+
 def _slug(s):
     return "".join(ch if ch.isalnum() else "_" for ch in s)[:60]
 
